@@ -351,7 +351,34 @@ def main():
         nviol += 1
         path = os.path.join(OUT, "replay", f"{prop}-{nviol}.json")
         rec = dict(property=prop, obligation=name, kind=r.get("kind"), note=r.get("note"), solver=r["backend"], verdict=r["verdict"], reason=r.get("reason"), counter_model=(r.get("model") or "")[:4000])
-        if match is not None:
+        cm = None
+        if r["verdict"] == "sat" and r.get("_ob") is not None and not os.environ.get("VERIF_NO_CMREPLAY"):
+            # the verifier's counter-model, replayed on the real code (pyvc/cmreplay.py): the instances of this obligation that have a
+            # model are tried in turn until the real function shows what the model predicts
+            try:
+                from pyvc import cmreplay
+
+                for r2 in [x for x in results.get(name, []) if x["verdict"] == "sat" and x.get("_ob") is not None][:4]:
+                    cm = cmreplay.try_replay(r2["_ob"])
+                    if cm and cm.get("status") == "reproduced":
+                        rec.update(note=r2.get("note"), counter_model=(r2.get("model") or "")[:4000])
+                        break
+            except Exception as e:  # a failed replay attempt never changes a verdict
+                cm = dict(status="replay-crashed", reason=f"{type(e).__name__}: {e}")
+            if cm:
+                rec["counter_model_replay"] = {k: v for k, v in cm.items() if k not in ("input_pickle", "expect")}
+        if cm and cm.get("status") == "reproduced":
+            rec["failing_input"] = dict(carrier=fn, clause=name.split("/", 2)[-1], input=cm["input"], observed=cm["observed"], expected=cm.get("expected"),
+                                        replay=dict(kind="counter-model", key=cm["key"], input_pickle=cm.get("input_pickle"), expect=cm.get("expect")))
+            if match is not None:  # the bounded stand-in saw the same carrier fail: its clauses are reported with this obligation, not again
+                used_b.add(match)
+                for i2, b2 in enumerate(bviol):
+                    if (b2["carrier"], b2["clause"]) == (bviol[match]["carrier"], bviol[match]["clause"]):
+                        used_b.add(i2)
+                rec["bounded_failing_input"] = bviol[match]
+            json.dump(rec, open(path, "w"), indent=1, default=str)
+            lines.append(f"VIOLATION property={prop} replay={path} obligation={name} counter-model-replayed-on-the-real-code")
+        elif match is not None:
             used_b.add(match)
             for i2, b2 in enumerate(bviol):
                 if (b2["carrier"], b2["clause"]) == (bviol[match]["carrier"], bviol[match]["clause"]):
@@ -500,6 +527,12 @@ def do_replay(prop, path):
     if not fi or not fi.get("replay"):
         print("no concrete failing input recorded (no-failing-input-found)")
         return 1
+    if isinstance(fi["replay"], dict) and fi["replay"].get("kind") == "counter-model":
+        from pyvc import cmreplay
+
+        ok = cmreplay.rerun(fi)
+        print("replay:", "the real code no longer shows the recorded behaviour" if ok else "FAILS on the real code (same behaviour as recorded)")
+        return 0 if ok else 1
     m = importlib.import_module(f"bounded.{prop}")
     ok = m.replay(fi["replay"])
     print("replay:", "property holds on this input now" if ok else "FAILS on the real code")
